@@ -76,5 +76,5 @@ func (f *MultipleValueSetq) Call(s *slip.Scope, args slip.List, depth int) slip.
 			s.Set(sym, nil)
 		}
 	}
-	return values[0]
+	return values.First()
 }
